@@ -942,4 +942,38 @@ def scanBlocks (legacy : Bool) (lo hi : Int) (skip : BlockMeta â†’ Bool) : Nat â
 def scanPart (legacy : Bool) (lo hi : Int) (skip : BlockMeta â†’ Bool) (blocks : List BlockMeta) (sids : List Nat) : List BlockMeta :=
   scanBlocks legacy lo hi skip (2 * (blocks.length + sids.length) + 2) blocks sids
 
+/-! ## 8. trace: the sidx key range derived for the order-by tag (`trace/index_filter.go` buildFilter minVal/maxVal)
+
+Conditions on the order-by tag are not re-checked by the row filter (they are in `skippedTagNames`), so this range is
+their only evaluation: it must contain the key of every row that satisfies the criteria. -/
+
+def iMin : Int := minI64.toInt
+def iMax : Int := maxI64.toInt
+
+/-- `buildFilterFromCondition` + `extractBoundsFromCondition`: `math.MaxInt64` / `math.MinInt64` double as "no bound"
+    sentinels, so a computed bound that happens to equal the sentinel is dropped (the range only gets wider). -/
+def leafBounds (orderTag : Nat) (op : Op) (tag : Nat) (lit : Val) : Int Ã— Int :=
+  if tag â‰  orderTag then (iMin, iMax)
+  else match lit with
+    | .int v =>
+      match op with
+      | .gt => if v.toInt < iMax then (if v.toInt + 1 = iMax then iMin else v.toInt + 1, iMax) else (iMin, iMax)
+      | .ge => (if v.toInt = iMax then iMin else v.toInt, iMax)
+      | .lt => if iMin < v.toInt then (iMin, if v.toInt - 1 = iMin then iMax else v.toInt - 1) else (iMin, iMax)
+      | .le => (iMin, if v.toInt = iMin then iMax else v.toInt)
+      | _ => (iMin, iMax)
+    | _ => (iMin, iMax)
+
+/-- `mergeMinMaxBounds`: AND = intersection, OR = convex hull of the union. -/
+def keyBounds (orderTag : Nat) : Criteria â†’ Int Ã— Int
+  | .leaf op tag lit => leafBounds orderTag op tag lit
+  | .and a b =>
+    let l := keyBounds orderTag a
+    let r := keyBounds orderTag b
+    (max l.1 r.1, min l.2 r.2)
+  | .or a b =>
+    let l := keyBounds orderTag a
+    let r := keyBounds orderTag b
+    (min l.1 r.1, max l.2 r.2)
+
 end Banyan.C08
